@@ -143,50 +143,50 @@ func forEachDoc(c *Ctx, g *gen, depth func(kind string) int, selfNest int, f fun
 	}
 }
 
-func c01Depth(c *Ctx) (func(string) int, int) {
-	if c.Quick() {
-		return func(k string) int { return 2 }, 1
-	}
-	return func(k string) int {
-		switch k {
-		case "schema":
-			return 3
-		}
-		return 3
-	}, 2
-}
-
 func c01Run(c *Ctx) {
 	g := newGen()
 	if err := vocabSelfCheck(g); err != nil {
 		panic(err)
 	}
-	depth, nest := c01Depth(c)
-	c.Bound("optional_members_plus_nondefault_choices", fmt.Sprint(depth("schema")))
-	c.Bound("self_nesting_in_routes", fmt.Sprint(nest))
 	n := 0
-	forEachDoc(c, g, depth, nest, func(cs docCase, parsed interface{}, st alt, rel string) {
-		before := c.Res.NViolations
-		kb := int64(0)
-		for _, v := range c.Res.Known {
-			kb += v
+	visit := func(minCost int) func(cs docCase, parsed interface{}, st alt, rel string) {
+		return func(cs docCase, parsed interface{}, st alt, rel string) {
+			if st.cost < minCost {
+				return
+			}
+			before := c.Res.NViolations
+			kb := int64(0)
+			for _, v := range c.Res.Known {
+				kb += v
+			}
+			o := c01Exec(c, cs, parsed)
+			c.Res.Evaluations++
+			c.Res.Transitions++
+			ka := int64(0)
+			for _, v := range c.Res.Known {
+				ka += v
+			}
+			if c.Res.NViolations == before && ka > kb {
+				o = "known-finding"
+			}
+			c.Outcome(o)
+			n++
+			if n%20000 == 1 {
+				c.Sample(cs)
+			}
 		}
-		o := c01Exec(c, cs, parsed)
-		c.Res.Evaluations++
-		c.Res.Transitions++
-		ka := int64(0)
-		for _, v := range c.Res.Known {
-			ka += v
-		}
-		if c.Res.NViolations == before && ka > kb {
-			o = "known-finding"
-		}
-		c.Outcome(o)
-		n++
-		if n%20000 == 1 {
-			c.Sample(cs)
-		}
-	})
+	}
+	if c.Quick() {
+		c.Bound("optional_members_plus_nondefault_choices", "2")
+		c.Bound("self_nesting_in_routes", "1")
+		forEachDoc(c, g, func(string) int { return 2 }, 1, visit(0))
+	} else {
+		// pass 1: cost <= 2 along every route with two levels of self-nesting;
+		// pass 2: cost 3 along every route with one level of self-nesting
+		c.Bound("optional_members_plus_nondefault_choices", "3 (routes with self-nesting 1), 2 (routes with self-nesting 2)")
+		forEachDoc(c, g, func(string) int { return 2 }, 2, visit(0))
+		forEachDoc(c, g, func(string) int { return 3 }, 1, visit(3))
+	}
 	c.Res.Transitions += g.transitions
 }
 
